@@ -383,7 +383,16 @@ func c18bBody(env *simrt.Env) {
 		if w.session > 0 {
 			// the source is down, DEED keeps writing until the ring is full
 			w.env.Op("pause of %v before the source is started again", w.pause)
-			time.Sleep(w.pause)
+			if w.restart > 0 {
+				// … and is killed and restarted with another packet size at some moment of the pause
+				t0 := time.Now()
+				w.restartProducer()
+				if d := w.pause - time.Since(t0); d > 0 {
+					time.Sleep(d)
+				}
+			} else {
+				time.Sleep(w.pause)
+			}
 		}
 		w.startSource()
 		o = newC18bOracle(w)
@@ -434,7 +443,7 @@ func c18bBody(env *simrt.Env) {
 		o.w.fail("harness.nominal", "harness:fault-in-nominal", "faults in a nominal run")
 	}
 	env.Sample(map[string]interface{}{"big": w.big, "ring_bytes": w.size, "packet_bytes": w.psize, "ring_packets": w.npk, "extra_bytes": w.extra, "groups": len(w.groups), "channels": w.nchan,
-		"frames_per_packet": w.fpp, "period_us": int(w.period / time.Microsecond), "writer_mode": w.mode, "sessions": w.sessions, "packets_written": w.built, "old": w.nOld, "sampled": w.nSampled,
+		"frames_per_packet": w.fpp, "period_us": int(w.period / time.Microsecond), "writer_mode": w.mode, "sessions": w.sessions, "restart_kind": w.restart, "packet_bytes_before_restart": w.oldPsize, "packets_written": w.built, "old": w.nOld, "sampled": w.nSampled,
 		"discarded_at_startrun": w.nDiscarded, "delivered": w.nDelivered, "reads": w.nReads, "max_packets_per_read": w.maxPerRead, "truncated_writes": w.nTruncated,
 		"writer_waits": w.writerWaited, "blocks": o.blocks, "frames_out": o.emitted, "first_emitted_slot": g0, "dropped_reported": o.dropped})
 }
